@@ -93,24 +93,54 @@ def ref_framing(cls: List[str], te):
     return ("grey", int(nonempty[0]))
 
 
-def pre_framing(shape: int, cl1: bytes, cl2: bytes, te: bytes) -> bool:
-    if not (0 <= shape <= 5):
+def _te_of(tek: int, mask: int, te: bytes) -> str:
+    """Transfer-Encoding candidates: 0 any short value; 1 'chunked' with a symbolic case mask;
+    2 short symbolic prefix + 'chunked'; 3 'chunked' + short symbolic suffix."""
+    t = te.decode("latin-1")
+    if tek == 0:
+        return t
+    if tek == 1:
+        out = ""
+        for i, c in enumerate("chunked"):
+            out += chr(ord(c) - 32) if (mask >> i) & 1 else c
+        return out
+    if tek == 2:
+        return t + "chunked"
+    return "chunked" + t
+
+
+def pre_framing(shape: int, cl1: bytes, cl2: bytes, tek: int, mask: int, te: bytes) -> bool:
+    if not (0 <= shape <= 5 and 0 <= tek <= 3 and 0 <= mask <= 127):
         return False
     has1 = shape in (1, 2, 4, 5)
     has2 = shape in (2, 5)
     hast = shape >= 3
-    if len(cl1) > (P.L1 if has1 else 0) or len(cl2) > (P.L2 if has2 else 0):
+    both = shape >= 4
+    if len(cl1) > ((P.L1B if both else P.L1D if has2 else P.L1) if has1 else 0):
         return False
-    if len(te) > (P.LT if hast else 0):
+    if len(cl2) > ((P.L2B if both else P.L2) if has2 else 0):
         return False
-    return in_shard(shape + 6 * len(cl1))
+    if not hast and (tek != 0 or len(te) > 0):
+        return False
+    if tek != 1 and mask != 0:
+        return False
+    if hast:
+        if both and (tek >= 2 or len(te) > P.LTB):
+            return False
+        if tek == 0 and len(te) > P.LT:
+            return False
+        if tek == 1 and len(te) > 0:
+            return False
+        if tek >= 2 and len(te) > P.LTX:
+            return False
+    return in_shard(shape * 7 + tek * 5 + len(cl1) * 3 + len(cl2) * 11 + len(te) * 13)
 
 
 @harness(
     pre=pre_framing,
-    quick=dict(L1=3, L2=2, LT=7, timeout=150),
-    thorough=dict(L1=4, L2=3, LT=8, timeout=1200),
-    nshards=dict(quick=12, thorough=30),
+    quick=dict(L1=3, L1D=2, L2=2, LT=3, LTX=2, L1B=1, L2B=1, LTB=2, timeout=120, reach_timeout=90),
+    thorough=dict(L1=4, L1D=3, L2=3, LT=6, LTX=3, L1B=2, L2B=2, LTB=3, timeout=1200, reach_timeout=200),
+    nshards=dict(quick=16, thorough=32),
     reach=["reject_cl_te", "accept_chunked", "accept_dup_cl", "reject_nonnumeric", "reject_te_other"],
     units=["http1connection.HTTP1Connection._read_body", "http1connection.is_transfer_encoding_chunked",
            "http1connection.parse_int", "httputil.HTTPHeaders.add", "httputil.HTTPHeaders.__getitem__"],
@@ -118,6 +148,8 @@ def pre_framing(shape: int, cl1: bytes, cl2: bytes, te: bytes) -> bool:
            "header values are injected through the real HTTPHeaders.add (values it refuses are outside this unit: "
            "they are rejected at header-parse level, see h_headers); names are the concrete "
            "Content-Length / Transfer-Encoding",
+           "Transfer-Encoding value: any bytes <= LT, or 'chunked' under a symbolic 7-bit case mask, or "
+           "symbolic prefix/suffix (<= LTX) around 'chunked'",
            "the three body readers of the connection are replaced by recorders on the instance (they are "
            "units of h_chunked / C04.h_body); max_body_size = 2**40 so the size limit (C04) does not interfere",
            "values are bytes decoded as latin-1, exactly as _parse_headers does"],
@@ -125,13 +157,14 @@ def pre_framing(shape: int, cl1: bytes, cl2: bytes, te: bytes) -> bool:
              "grey shapes where RFC 9110 5.6.1 leaves latitude (empty list elements, OWS before a comma, "
              "'01' vs '1'): there only 'accept => the numerically consistent length' is asserted"],
 )
-def h_framing(shape: int, cl1: bytes, cl2: bytes, te: bytes):
+def h_framing(shape: int, cl1: bytes, cl2: bytes, tek: int, mask: int, te: bytes):
     """A request with the given Content-Length lines / Transfer-Encoding line is framed exactly as
     RFC 9112 6.3 demands, or rejected with HTTPInputError (-> 400) and nothing else."""
     has1 = shape in (1, 2, 4, 5)
     has2 = shape in (2, 5)
     hast = shape >= 3
-    s1, s2, st = cl1.decode("latin-1"), cl2.decode("latin-1"), te.decode("latin-1")
+    s1, s2 = cl1.decode("latin-1"), cl2.decode("latin-1")
+    st = _te_of(tek, mask, te) if hast else ""
     headers = httputil.HTTPHeaders()
     try:
         headers.add("Host", "x")
@@ -175,3 +208,177 @@ def h_framing(shape: int, cl1: bytes, cl2: bytes, te: bytes):
         if want[0] == "fixed" and has2:
             reached("accept_dup_cl")
         assert got == want, "framing differs from RFC 9112 6.3: want %r got %r" % (want, got)
+
+
+# =====================================================================================
+# unit 4: chunked decoding, driven through the real server loop (_server_request_loop ->
+# _read_message -> _read_body -> _read_chunked_body) with a pre-delimited concrete header block
+# =====================================================================================
+from harness._httpin import HDR_STREAM, HdrStream, respond_ok  # noqa: E402
+
+CH_HDR = b"POST /c HTTP/1.1\r\nHost: h\r\nTransfer-Encoding: chunked\r\n\r\n"
+GET_HDR = b"GET /n HTTP/1.1\r\nHost: h\r\n\r\n"
+PAY = b"abcdefgh"
+R400 = b"HTTP/1.1 400 Bad Request\r\n\r\n"
+R200 = b"HTTP/1.1 200 OK\r\nContent-Length: 0\r\n\r\n"
+
+
+def _hexval(line: bytes):
+    """1*HEXDIG -> int, else None (strict RFC 9112 7.1 chunk-size, no extensions)."""
+    if len(line) == 0:
+        return None
+    v = 0
+    for b in line:
+        if 48 <= b <= 57:
+            d = b - 48
+        elif 65 <= b <= 70:
+            d = b - 55
+        elif 97 <= b <= 102:
+            d = b - 87
+        else:
+            return None
+        v = v * 16 + d
+    return v
+
+
+def ref_chunked(buf: bytes):
+    """Strict chunked-body reader.  -> (status, body_so_far, consumed)
+    status: 'ok' complete body; 'reject' malformed; 'short' ran out of bytes."""
+    pos = 0
+    body = b""
+    while True:
+        i = buf.find(b"\r\n", pos)
+        if i < 0:
+            return ("short", body, pos)
+        m = _hexval(buf[pos:i])
+        if m is None:
+            return ("reject", body, pos)
+        pos = i + 2
+        if m == 0:
+            if len(buf) - pos < 2:
+                return ("short", body, pos)
+            if buf[pos:pos + 2] == b"\r\n":
+                return ("ok", body, pos + 2)
+            return ("reject", body, pos)   # trailer fields are not supported: 400-or-close allowed
+        if len(buf) - pos < m:
+            return ("short", body + buf[pos:], len(buf))
+        body = body + buf[pos:pos + m]
+        pos = pos + m
+        if len(buf) - pos < 2:
+            return ("short", body, pos)
+        if buf[pos:pos + 2] != b"\r\n":
+            return ("reject", body, pos)
+        pos = pos + 2
+
+
+def _serve(env, msgs, eof, seg, params=None, on_headers=None, on_data=None, on_finish=respond_ok):
+    stream = HdrStream(env.loop, msgs, eof=eof, seg=seg)
+    rc = RecConn(on_headers=on_headers, on_data=on_data, on_finish=on_finish)
+    sc = HTTP1ServerConnection(stream, params or HTTP1ConnectionParameters(chunk_size=2))
+    sc.start_serving(rc)
+    env.run_ready()
+    return stream, rc, sc
+
+
+def _check_rejected(stream, rc, trap, env, idx, eof_short=False):
+    """Oracle for 'the reader rejects message idx (or the peer vanished inside it)': nothing further is
+    delivered, the server answers 400 or just closes, no uncaught application error is logged."""
+    ev = rc.events_by_req[idx] if len(rc.events_by_req) > idx else []
+    assert count(ev, "F") == 0, "finish() delivered for a message the strict reader rejects: %r" % (ev,)
+    assert len(rc.events_by_req) <= idx + 1 or all(len(e) == 0 for e in rc.events_by_req[idx + 1:]), \
+        "a further request was delivered after the rejected one"
+    assert stream.closed(), "connection left open after a rejected message"
+    wire = stream.wire()
+    tail = wire[len(R200) * idx:]
+    assert wire[:len(R200) * idx] == R200 * idx
+    assert tail == b"" or tail == R400, "after rejection only 400 or nothing may be written, got %r" % (tail,)
+    assert not trap.uncaught(), "peer input surfaced as uncaught application error: %r" % (trap.uncaught(),)
+    assert not env.v.exc_contexts, "exception escaped a callback: %r" % (env.v.exc_contexts,)
+    assert rc.closed == 1, "server connection delegate on_close not called exactly once"
+
+
+def pre_chunked(which: int, n1: int, a: bytes, seg: int, eof: bool) -> bool:
+    if not (0 <= which <= 4 and 0 <= n1 <= P.NP and len(a) <= 2 and 1 <= seg <= 2):
+        return False
+    if which in (0, 2, 4) and (len(a) > P.LA or seg != 1):
+        return False
+    if which == 1 or which == 3:
+        return in_shard((0 if which == 1 else 3) + len(a))
+    base = 6 + (which // 2) * 5
+    if len(a) == 0:
+        return in_shard(base)
+    return in_shard(base + 1 + a[0] % 4)
+
+
+@harness(
+    pre=pre_chunked,
+    quick=dict(NP=2, LA=1, timeout=100, reach_timeout=60),
+    thorough=dict(NP=4, LA=2, timeout=1200, reach_timeout=120),
+    nshards=dict(quick=21, thorough=21),
+    reach=["ok_two_requests", "reject_size", "reject_terminator", "short_eof"],
+    units=["http1connection.HTTP1Connection._read_chunked_body", "http1connection.parse_hex_int",
+           "http1connection.HTTP1Connection._read_message", "http1connection.HTTP1Connection._read_body",
+           "http1connection.HTTP1ServerConnection._server_request_loop",
+           "http1connection._ExceptionLoggingContext"],
+    stubs=[FMT, HDR_STREAM, "virtual loop (vp/env.py)",
+           "body = sz1 e1 PAY[:n1] t1 szl el tl with ONE of sz1/t1/szl/tl/e1 replaced by arbitrary bytes (<=2; "
+           "<= LA for the size lines and their line end) and "
+           "n1 (actual payload length) symbolic and independent of the declared size; followed by a concrete "
+           "pipelined GET; application answers 200/empty in finish(); params.chunk_size=2"],
+    outside=["chunk extensions / trailers (Tornado refuses them; statement allows 400-or-close)",
+             "size lines > 2 symbolic bytes, payloads > NP bytes, more than one data chunk before the last chunk",
+             "size line longer than 64 bytes"],
+)
+def h_chunked(which: int, n1: int, a: bytes, seg: int, eof: bool):
+    """Chunked request bodies are decoded exactly as a strict RFC 9112 7.1 reader does; malformed size
+    lines / chunk terminators are refused with 400-or-close, never as an uncaught error."""
+    sz1 = bytes([48 + n1]) if n1 < 10 else b"a"
+    e1 = t1 = el = tl = b"\r\n"
+    szl = b"0"
+    if which == 0:
+        sz1 = a
+    elif which == 1:
+        t1 = a
+    elif which == 2:
+        szl = a
+    elif which == 3:
+        tl = a
+    else:
+        e1 = a
+    buf = sz1 + e1 + PAY[:n1] + t1 + szl + el + tl
+    want = ref_chunked(buf)
+    with install() as env, LogTrap() as trap:
+        stream, rc, sc = _serve(env, [(CH_HDR, buf), (GET_HDR, b"")], eof, seg)
+        ev = rc.events_by_req[0]
+        assert ev and ev[0][0] == "H"
+        got = body_of(ev)
+        if want[0] == "ok":
+            assert got == want[1], "decoded body differs: want %r got %r" % (want[1], got)
+            assert count(ev, "F") == 1 and count(ev, "C") == 0, "complete chunked message must finish: %r" % (ev,)
+            assert not trap.uncaught() and not env.v.exc_contexts
+            if want[2] == len(buf):
+                assert not stream.desync
+                assert len(rc.events_by_req) >= 2 and [e[0] for e in rc.events_by_req[1]] == ["H", "F"], \
+                    "pipelined request after a complete chunked message not delivered: %r" % (rc.events_by_req,)
+                assert stream.wire() == R200 * 2
+                reached("ok_two_requests")
+            else:
+                assert stream.desync, "reader consumed bytes beyond the end of the chunked message"
+        else:
+            assert want[1][:len(got)] == got, \
+                "delivered data %r is not a prefix of the strictly decoded body %r" % (got, want[1])
+            if want[0] == "reject" or eof:
+                _check_rejected(stream, rc, trap, env, 0)
+                assert count(ev, "C") == 1, "connection-close notification missing/duplicated: %r" % (ev,)
+                if want[0] == "reject":
+                    if which == 1:
+                        reached("reject_terminator")
+                    if which == 0:
+                        reached("reject_size")
+                else:
+                    reached("short_eof")
+            else:
+                # short and the peer keeps the connection open: reader must be waiting, nothing decided
+                assert count(ev, "F") == 0 and count(ev, "C") == 0
+                assert not stream.closed() and stream.wire() == b""
+                assert not trap.uncaught() and not env.v.exc_contexts
